@@ -502,12 +502,16 @@ void band_update_stats(band_state *band) {
     }
 
     if (band->r > 0 && band->begun) {
-        uint32_t r_pow_beta = band->r;
+        /* 64-bit and saturating: r*r and ALPHA*r^BETA wrap a uint32_t from r = 65536 on. */
+        uint64_t r_pow_beta = band->r;
         for (int i = 1; i < BAND_BETA; i++) {
             r_pow_beta *= band->r;
+            if (r_pow_beta > BAND_NMAX) {
+                r_pow_beta = BAND_NMAX;
+            }
         }
-        uint32_t new_ni = BAND_ALPHA * r_pow_beta;
-        band->Ni = (new_ni > BAND_NMAX) ? BAND_NMAX : new_ni;
+        uint64_t new_ni = (uint64_t)BAND_ALPHA * r_pow_beta;
+        band->Ni = (new_ni > BAND_NMAX) ? BAND_NMAX : (uint32_t)new_ni;
     }
 
     band->r = 0;
